@@ -4,6 +4,6 @@ CONSTANTS
   Reqs <- ReqsC14
   MaxBatches = @@MB@@
   MaxPerBatch = @@MP@@
-  ClientEnds = {"close"}
+  ClientEnds = {"close", "stall"}
 INVARIANT Inv
 INVARIANT Emit
